@@ -180,6 +180,54 @@ T4 = {
         "new C19 sub-check store-redis (bucket expiry as enforced by the Redis bucket broker); Redis model: EX / PX / PXAT", ["C19"]),
     "C20-r4-decode-errors-ignore": ("request line that becomes GET <endpoint> once invalid UTF-8 bytes are dropped", True, None, ["C20"]),
 }
+# round 5
+T5 = {
+    "C01-r5-amqp-delivered-prune-adopts-foreign-tags": (
+        "RabbitMQ, two consumers on one broker object, a message that moved from A to B, more than 1000 deliveries through A, then A.finish()",
+        False, "new C01 sub-checks long-lived-*: 60-1040 deliveries through a consumer beside a message held by another", ["C01"]),
+    "C02-r5-sync-actors-on-default-executor": (
+        "more concurrently running sync actors than the event loop's default thread pool has threads", False,
+        "new C02 sub-check sync-burst: 33-70 sync actors that meet at a barrier (opt-in thread_time in the virtual loop)", ["C02"]),
+    "C03-r5-redis-maintenance-timeout-seconds": ("Redis, execution timeout with a days component, maintenance", True, None, ["C03"]),
+    "C04-r5-redis-requeue-same-second-shortcut": ("Redis, sub-second retry back-off not crossing a second boundary", True, None, ["C04"]),
+    "C05-r5-redis-delayed-poll-once-per-second": ("Redis, several delayed messages of one priority due in the same second", True, None, ["C05"]),
+    "C06-r5-overdue-failure-nacked-before-reschedule": (
+        "recurring job with a ttl barely above its period, an iteration that runs past the ttl and fails with retries exhausted", False,
+        "C06 recurring scenarios: ttl = period + 2.5 s with attempts of 1-4 s", ["C06"]),
+    "C07-r5-job-enqueue-gathers-bucket-store": (
+        "arguments through a bucket, worker already consuming, bucket store slower than the worker's lookup", False,
+        "C07 e2e-*: worker-first variant with a slow producer-side bucket client", ["C07"]),
+    "C08-r5-basic-defaults-shallow-copy": ("BasicConverter, two payloads of different shape through one converter", True, None, ["C08"]),
+    "C09-r5-event-wakes-all-waiting-consumers": (">=2 queues whose consumers wait for a slot at the same time", True, None, ["C09"]),
+    "C10-r5-testing-plugin-lock-not-reentrant": (
+        "run-on-enqueue mode, actor that enqueues a follow-up job", False,
+        "C10 plugin: jobs whose actor enqueues a follow-up job", ["C10"]),
+    "C11-r5-amqp-giveback-skipped-after-finish": ("RabbitMQ, foreign-topic message in its 0.1 s bounce when the worker stops", True, None, ["C11"]),
+    "C12-r5-mem-cached-clock-for-ttl": (
+        "in-memory, consumer idle-polling for a while, message that expired less than ~1 s before it arrives", False,
+        "new C12 sub-checks idle-*", ["C12"]),
+    "C13-r5-mem-bucket-ttl-heap-stale-deadline": ("in-memory result bucket written twice under one id with a ttl", True, None, ["C13"]),
+    "C14-r5-amqp-requeue-publish-before-ack": (
+        "RabbitMQ, immediate requeue delivered to a consumer of the same broker object, later a connection loss", False,
+        "C14 holders-*: restart epilogue (all clients die, a new one drains), single-process variant, more requeues "
+        "(same change as C01-r3 / C02-r3, which C01 and C02 catch)", ["C14"]),
+    "C15-r5-amqp-big-body-parsed-in-executor": (
+        "RabbitMQ, a body of 64 KiB or more followed by small messages", False, "C15: 70-200 KB bodies", ["C15"]),
+    "C16-r5-readonly-set-after-hook": (
+        "a second action on the handle while the actor unwinds from its eager response (finally / except BaseException)", False,
+        "scripted eager outcomes may attempt a second action in a finally block (C16 programs)", ["C16"]),
+    "C17-r5-asyncify-shared-default-executor": (
+        "more concurrent slow sync subscriber calls than the default thread pool has threads, sync actors with a short timeout", False,
+        "new C17 sub-check slow-sync-subscribers (same change as C02-r5)", ["C17", "C02"]),
+    "C18-r5-gather-return-exceptions-baseexception": (
+        "a provider that settles the message itself, or a provider returning an exception object", False,
+        "C18: providers may return exception objects (C16 dependency-eager / C02 catch the first half)", ["C18"]),
+    "C19-r5-period-grid-anchored-at-retry-time": (
+        "periodic job with retries: a retry back-off that is no multiple of the period, then the normal reschedule", False,
+        "C19 next: the message may carry an off-grid next_execution_time; C06 cadence: all slots on one grid", ["C19", "C06"]),
+    "C20-r5-connection-cap-leaks-on-empty-connections": (
+        ">=128 connections opened and closed without a byte", False, "C20 socket: bursts of 130 / 300 silent connections", ["C20"]),
+}
 RETIRED = {"C10-r4-stop-event-at-mth-start"}
 
 
@@ -188,6 +236,7 @@ def main() -> None:
     rows = [(n, 2, needs, first, st, [n[:3]]) for n, (needs, first, st) in T.items()]
     rows += [(n, 3, needs, first, st, checks) for n, (needs, first, st, checks) in T3.items()]
     rows += [(n, 4, needs, first, st, checks) for n, (needs, first, st, checks) in T4.items()]
+    rows += [(n, 5, needs, first, st, checks) for n, (needs, first, st, checks) in T5.items()]
     for name, rnd, needs, first, strengthened, checks in rows:
         d = ROOT / "seeded" / name
         pid = name[:3]
